@@ -39,7 +39,7 @@ impl GrepLine<'_> {
         self.submatches = self.submatches.as_ref().map(|submatches| {
             submatches
                 .iter()
-                .map(|(a, b)| (a + shift, b + shift))
+                .map(|(a, b)| (a.saturating_add(shift), b.saturating_add(shift)))
                 .collect()
         });
     }
@@ -114,7 +114,8 @@ impl StateMachine<'_> {
         }
         let first_path = previous_path.is_none();
         let new_path = first_path || previous_path.as_deref() != Some(&grep_line.path);
-        let line_number_jump = previous_line < &grep_line.line_number.as_ref().map(|n| n - 1);
+        let line_number_jump =
+            previous_line < &grep_line.line_number.as_ref().map(|n| n.saturating_sub(1));
         // Emit a '--' section separator when output contains context lines (i.e. *grep option -A, -B, -C is in effect).
         let new_section = !new_path
             && (previous_line_type == Some(&LineType::Context)
@@ -381,6 +382,15 @@ fn make_style_sections<'a>(
     let mut curr = 0;
     for (start_, end_) in submatches {
         let (start, end) = (*start_, *end_);
+        // Ignore a submatch that does not describe a range of this line.
+        if start < curr
+            || end < start
+            || end > line.len()
+            || !line.is_char_boundary(start)
+            || !line.is_char_boundary(end)
+        {
+            continue;
+        }
         if start > curr {
             sections.push((non_match_style, &line[curr..start]))
         };
